@@ -71,6 +71,7 @@ static struct packet outpkt;
 static struct packet inpkt;
 int outchunkresent = 0;
 static time_t outchunktime;	/* when the current upstream fragment was last sent */
+static time_t lastrawping;	/* when the last raw-mode ping was sent */
 
 /* My userid at the server */
 static char userid;
@@ -403,6 +404,7 @@ send_ping(int fd)
 
 		send_packet(fd, 'p', data, sizeof(data));
 	} else {
+		lastrawping = time(NULL);
 		send_raw(fd, NULL, 0, RAW_HDR_CMD_PING);
 	}
 }
@@ -1133,6 +1135,17 @@ client_tunnel(int tun_fd, int dns_fd)
 
 		if (i < 0)
 			err(1, "select");
+
+		if (i > 0 && conn == CONN_RAW_UDP &&
+		    lastrawping + selecttimeout <= time(NULL)) {
+			/* Raw mode data is not answered, and the select
+			   timeout only fires when both directions are idle:
+			   with steady traffic in one direction no ping was
+			   ever sent, the other side heard nothing from us (or
+			   we nothing from it) and gave up after 60 seconds.
+			   Keep pinging at the usual interval. */
+			send_ping(dns_fd);
+		}
 
 		if (i > 0 && is_sending() && outchunktime + 1 < time(NULL)) {
 			/* Traffic on the tun device (which is only being
